@@ -622,9 +622,11 @@ struct CaseOut {
     reject: String,
     fails: Vec<Fail>,
     steps: u64,
+    /// validations that succeeded (evidence that the sweep got behind the signature checks)
+    marks: Vec<&'static str>,
 }
 
-struct Sweep<'e> { env: &'e Env, n: usize, fails: Vec<Fail> }
+struct Sweep<'e> { env: &'e Env, n: usize, fails: Vec<Fail>, marks: Vec<&'static str> }
 
 fn count_bounded<I: Iterator>(it: I, n: usize) -> Result<usize, String> {
     let mut c = 0usize;
@@ -647,6 +649,7 @@ fn err_class(s: &str) -> String {
 }
 
 impl<'e> Sweep<'e> {
+    fn mark(&mut self, m: &'static str) { if !self.marks.contains(&m) { self.marks.push(m) } }
     fn push(&mut self, oracle: &'static str, acc: &'static str, detail: String) {
         if !self.fails.iter().any(|f| f.oracle == oracle) { self.fails.push(Fail { oracle, acc, detail }) }
     }
@@ -815,7 +818,7 @@ impl<'e> Sweep<'e> {
                 }
             }
         });
-        if let Some(rc) = validated.first() { let rc = rc.clone(); self.resource_cert(&rc) }
+        if let Some(rc) = validated.first() { let rc = rc.clone(); self.mark("Cert::validate_*_at ok"); self.resource_cert(&rc) }
     }
 
     fn id_cert(&mut self, c: &IdCert) {
@@ -831,11 +834,14 @@ impl<'e> Sweep<'e> {
         });
         let key = c.public_key().clone();
         self.public_key(&key);
-        self.run("C04.idcert.validate_at", "IdCert::validate_*_at", || {
+        let ok = self.run("C04.idcert.validate_at", "IdCert::validate_*_at", || {
+            let mut ok = false;
             for (k, t) in env.keys.iter() {
-                let _ = c.validate_ta_at(*t); let _ = c.validate_ee_at(k, *t); let _ = c.verify_validity(*t);
+                ok |= c.validate_ta_at(*t).is_ok(); ok |= c.validate_ee_at(k, *t).is_ok(); let _ = c.verify_validity(*t);
             }
+            ok
         });
+        if ok == Some(true) { self.mark("IdCert::validate_*_at ok") }
     }
 
     //--- CRL
@@ -864,9 +870,12 @@ impl<'e> Sweep<'e> {
                      crl.authority_key_identifier().to_string(), crl.crl_number().to_string());
             let _ = crl.signed_data().signature().value().len();
         });
-        self.run("C04.crl.verify_signature", "Crl::verify_signature", || {
-            for (k, _) in env.keys.iter() { let _ = crl.verify_signature(k); }
+        let ok = self.run("C04.crl.verify_signature", "Crl::verify_signature", || {
+            let mut ok = false;
+            for (k, _) in env.keys.iter() { ok |= crl.verify_signature(k).is_ok(); }
+            ok
         });
+        if ok == Some(true) { self.mark("Crl::verify_signature ok") }
         if self.run("C04.reencode", "Crl::to_captured", || {
             let _ = crl.as_cert_list().encode_ref().to_captured(Mode::Der);
             crl.to_captured().len()
@@ -904,15 +913,19 @@ impl<'e> Sweep<'e> {
             for (u, h) in m.iter_uris(&env.base) { let _ = (u.to_string(), h.algorithm(), h.as_slice().len(), h.verify(b"x").is_ok()); }
             Ok(())
         });
-        self.run("C04.mft.validate_at", "Manifest::validate_at", || {
+        let ok = self.run("C04.mft.validate_at", "Manifest::validate_at", || {
+            let mut ok = false;
             for (issuer, t) in env.issuers.iter() {
                 for strict in [false, true] {
                     if let Ok((rc, content)) = m.clone().validate_at(issuer, strict, *t) {
+                        ok = true;
                         let _ = (rc.v4_resources().is_empty(), content.len(), content.iter().count());
                     }
                 }
             }
+            ok
         });
+        if ok == Some(true) { self.mark("Manifest::validate_at ok") }
         let c = m.cert().clone();
         self.cert(&c);
     }
@@ -952,15 +965,19 @@ impl<'e> Sweep<'e> {
                 for a in r.content().v6_addrs().iter() { let _ = issuer.v6_resources().contains_roa(&a); }
             }
         });
-        self.run("C04.roa.process", "Roa::process", || {
+        let ok = self.run("C04.roa.process", "Roa::process", || {
+            let mut ok = false;
             for (issuer, _) in env.issuers.iter() {
                 for strict in [false, true] {
                     if let Ok((rc, att)) = r.clone().process(issuer, strict, |_| Ok(())) {
+                        ok = true;
                         let _ = (rc.v4_resources().is_empty(), att.iter().count());
                     }
                 }
             }
+            ok
         });
+        if ok == Some(true) { self.mark("Roa::process ok") }
         let c = r.cert().clone();
         self.cert(&c);
     }
@@ -983,13 +1000,16 @@ impl<'e> Sweep<'e> {
         });
         let res = self.run("C04.aspa.as_resources", "AsProviderAttestation::as_resources", || a.content().as_resources().to_blocks().ok()).flatten();
         if let Some(b) = res { self.as_blocks(&b) }
-        self.run("C04.aspa.process", "Aspa::process", || {
+        let ok = self.run("C04.aspa.process", "Aspa::process", || {
+            let mut ok = false;
             for (issuer, _) in env.issuers.iter() {
                 for strict in [false, true] {
-                    if let Ok((_, att)) = a.clone().process(issuer, strict, |_| Ok(())) { let _ = att.provider_as_set().iter().count(); }
+                    if let Ok((_, att)) = a.clone().process(issuer, strict, |_| Ok(())) { ok = true; let _ = att.provider_as_set().iter().count(); }
                 }
             }
+            ok
         });
+        if ok == Some(true) { self.mark("Aspa::process ok") }
         let c = a.cert().clone();
         self.cert(&c);
     }
@@ -1004,15 +1024,19 @@ impl<'e> Sweep<'e> {
         });
         let (v4, v6, asn) = (r.v4_resources().clone(), r.v6_resources().clone(), r.as_resources().clone());
         self.ip_blocks(&v4, true); self.ip_blocks(&v6, false); self.as_blocks(&asn);
-        self.run("C04.rta.validation", "rta::Validation", || {
+        let ok = self.run("C04.rta.validation", "rta::Validation", || {
+            let mut ok = 0u8;
             for strict in [false, true] {
                 if let Ok(mut v) = rta::Validation::new_at(r, strict, t0()) {
+                    ok |= 1;
                     if let Some(tal) = env.tal.as_ref() { let _ = v.supply_tal(tal); }
                     for (issuer, _) in env.issuers.iter() { let _ = v.supply_ca(issuer); }
-                    let _ = v.finalize().map(|c| c.subject_keys().len());
+                    if v.finalize().map(|c| c.subject_keys().len()).is_ok() { ok |= 2 }
                 }
             }
+            ok
         });
+        if let Some(ok) = ok { if ok & 1 != 0 { self.mark("rta::Validation::new_at ok") } if ok & 2 != 0 { self.mark("rta::Validation::finalize ok") } }
     }
 
     fn tal(&mut self, t: &Tal) {
@@ -1040,7 +1064,7 @@ impl<'e> Sweep<'e> {
             let _ = c.public_key().key_identifier();
             extra(c);
         });
-        self.run("C04.csr.verify_signature", "Csr::verify_signature", || c.verify_signature().is_ok());
+        if self.run("C04.csr.verify_signature", "Csr::verify_signature", || c.verify_signature().is_ok()) == Some(true) { self.mark("Csr::verify_signature ok") }
         let k = c.public_key().clone();
         self.public_key(&k);
     }
@@ -1053,9 +1077,12 @@ impl<'e> Sweep<'e> {
             count_bounded(m.content().iter(), n.max(1))?;
             Ok(())
         });
-        self.run("C04.sigmsg.validate_at", "SignedMessage::validate_at", || {
-            for (k, t) in env.keys.iter() { let _ = m.validate_at(k, *t); }
+        let ok = self.run("C04.sigmsg.validate_at", "SignedMessage::validate_at", || {
+            let mut ok = false;
+            for (k, t) in env.keys.iter() { ok |= m.validate_at(k, *t).is_ok(); }
+            ok
         });
+        if ok == Some(true) { self.mark("SignedMessage::validate_at ok") }
     }
 }
 
@@ -1066,7 +1093,7 @@ fn run_case(env: &Env, ep: Ep, bytes: &[u8], do_sweep: bool) -> CaseOut {
     let calls = Cell::new(0u64);
     let budget = STEP_C * n as u64 + STEP_K;
     let src = || CountSource { data: bytes, pos: 0, calls: &calls, budget };
-    let mut sw = Sweep { env, n, fails: Vec::new() };
+    let mut sw = Sweep { env, n, fails: Vec::new(), marks: Vec::new() };
     let mut reject = String::new();
     let mut steps_exceeded = false;
     macro_rules! dec {
@@ -1135,7 +1162,7 @@ fn run_case(env: &Env, ep: Ep, bytes: &[u8], do_sweep: bool) -> CaseOut {
     if steps_exceeded || steps > budget {
         sw.push("C04.steps", "decode", format!("{steps} source calls for {n} input octets (allowed {STEP_C}*n+{STEP_K})"));
     }
-    CaseOut { decoded, reject, fails: sw.fails, steps }
+    CaseOut { decoded, reject, fails: sw.fails, steps, marks: sw.marks }
 }
 
 //============ case enumeration (pure functions of seed and index) ==================
@@ -1255,11 +1282,12 @@ struct TaskResult {
     samples: Vec<String>,
     /// max source calls per input octet, in thousandths
     max_ratio: u64,
+    marks: BTreeMap<String, u64>,
 }
 
 impl TaskResult {
     fn to_json(&self, id: u64) -> String {
-        json!({"id": id, "ev": self.evals, "nt": self.nontrivial, "oc": self.outcomes, "f": self.fails, "s": self.samples, "r": self.max_ratio}).to_string()
+        json!({"id": id, "ev": self.evals, "nt": self.nontrivial, "oc": self.outcomes, "f": self.fails, "s": self.samples, "r": self.max_ratio, "m": self.marks}).to_string()
     }
     fn from_json(v: &Value) -> Option<(u64, TaskResult)> {
         let mut r = TaskResult { evals: v["ev"].as_u64()?, nontrivial: v["nt"].as_u64()?, max_ratio: v["r"].as_u64()?, ..Default::default() };
@@ -1268,11 +1296,13 @@ impl TaskResult {
             r.fails.push((f[0].as_str()?.to_string(), f[1].as_str()?.to_string(), f[2].as_str()?.to_string()));
         }
         for s in v["s"].as_array()? { r.samples.push(s.as_str()?.to_string()) }
+        for (k, n) in v["m"].as_object()? { r.marks.insert(k.clone(), n.as_u64()?); }
         Some((v["id"].as_u64()?, r))
     }
     fn merge(&mut self, o: TaskResult) {
         self.evals += o.evals; self.nontrivial += o.nontrivial;
         for (k, n) in o.outcomes { *self.outcomes.entry(k).or_insert(0) += n }
+        for (k, n) in o.marks { *self.marks.entry(k).or_insert(0) += n }
         self.fails.extend(o.fails);
         if self.samples.len() < 4 { self.samples.extend(o.samples) }
         self.max_ratio = self.max_ratio.max(o.max_ratio);
@@ -1302,6 +1332,7 @@ impl Worker {
         let class = if out.decoded { if out.fails.is_empty() { "decoded".to_string() } else { "decoded, accessor failed".to_string() } }
                     else if out.fails.is_empty() { format!("rejected: {}", out.reject) } else { "decoder failed".to_string() };
         *res.outcomes.entry(class).or_insert(0) += 1;
+        for m in &out.marks { *res.marks.entry(format!("{} [{}/{}]", m, ep.name(), ep.mode())).or_insert(0) += 1 }
         if !out.fails.is_empty() {
             let d = desc();
             for f in &out.fails {
@@ -1575,12 +1606,26 @@ struct PoolState {
     /// per space: (summed task seconds, longest task, time of last completion)
     times: Mutex<BTreeMap<SpaceId, (f64, f64, f64)>>,
     t0: Instant,
+    /// isolated dead inputs per (space, seed, entry point); at DEATH_CAP the
+    /// rest of that combination is no longer run (and the space is reported
+    /// as not exhaustive)
+    dead_count: Mutex<HashMap<(SpaceId, usize, usize), u32>>,
+    skipped: Mutex<BTreeMap<SpaceId, u64>>,
+    coarse: Mutex<Vec<Death>>,
 }
+
+const DEATH_CAP: u32 = 3;
 
 impl PoolState {
     fn timeout(&self, t: &Task, bisecting: bool) -> Duration {
         if t.sp == SpaceId::SelfTest { return Duration::from_millis(1500) }
         if bisecting { Duration::from_secs(30) } else { Duration::from_secs(if self.thorough { 180 } else { 90 }) }
+    }
+
+    fn key(t: &Task) -> (SpaceId, usize, usize) { (t.sp, t.seed, t.ep.idx()) }
+    fn count_death(&self, t: &Task) { *self.dead_count.lock().unwrap().entry(Self::key(t)).or_insert(0) += 1; }
+    fn poisoned(&self, t: &Task) -> bool {
+        t.sp != SpaceId::SelfTest && self.dead_count.lock().unwrap().get(&Self::key(t)).copied().unwrap_or(0) >= DEATH_CAP
     }
 
     /// `cur` died or hung as a whole: narrow it down to one index.
@@ -1615,8 +1660,8 @@ impl PoolState {
                 self.results.lock().unwrap().push((cur.clone(), r));
                 self.infra.lock().unwrap().push(format!("input {} of {} seed {} ended a worker ({how}) but not when run alone", cur.lo, cur.sp.code(), cur.seed));
             }
-            RunOutcome::Died(h) => self.deaths.lock().unwrap().push(Death { task: cur, hung: false, how: h }),
-            RunOutcome::Hung => { let _ = hung; self.deaths.lock().unwrap().push(Death { task: cur, hung: true, how: "no reply within the wall budget".into() }) }
+            RunOutcome::Died(h) => { self.count_death(&cur); self.deaths.lock().unwrap().push(Death { task: cur, hung: false, how: h }) }
+            RunOutcome::Hung => { let _ = hung; self.count_death(&cur); self.deaths.lock().unwrap().push(Death { task: cur, hung: true, how: "no reply within the wall budget".into() }) }
             RunOutcome::Infra(e) => self.infra.lock().unwrap().push(e),
         }
     }
@@ -1630,6 +1675,7 @@ impl PoolState {
                     loop {
                         let t = { self.queue.lock().unwrap().pop_front() };
                         let Some(t) = t else { break };
+                        if self.poisoned(&t) { *self.skipped.lock().unwrap().entry(t.sp).or_insert(0) += t.size(); continue }
                         let t_task = Instant::now();
                         let outcome = run_on(&mut slot, &t, self.timeout(&t, false), self.thorough);
                         if trace {
@@ -1641,8 +1687,13 @@ impl PoolState {
                         }
                         match outcome {
                             RunOutcome::Done(r) => self.results.lock().unwrap().push((t, r)),
-                            RunOutcome::Died(how) => self.bisect(&mut slot, t, false, how),
-                            RunOutcome::Hung => self.bisect(&mut slot, t, true, "no reply within the wall budget".into()),
+                            RunOutcome::Died(how) => {
+                                if self.poisoned(&t) { self.coarse.lock().unwrap().push(Death { task: t, hung: false, how }) } else { self.bisect(&mut slot, t, false, how) }
+                            }
+                            RunOutcome::Hung => {
+                                let how = "no reply within the wall budget".to_string();
+                                if self.poisoned(&t) { self.coarse.lock().unwrap().push(Death { task: t, hung: true, how }) } else { self.bisect(&mut slot, t, true, how) }
+                            }
                             RunOutcome::Infra(e) => {
                                 let mut inf = self.infra.lock().unwrap();
                                 inf.push(e);
@@ -1745,7 +1796,7 @@ fn main() {
         match parsed {
             None => ctx.machinery_error(format!("cannot parse replay witness {wit}")),
             Some(t) => {
-                let st = PoolState { queue: Mutex::new(VecDeque::from(vec![t])), results: Mutex::new(vec![]), deaths: Mutex::new(vec![]), infra: Mutex::new(vec![]), thorough, times: Mutex::new(BTreeMap::new()), t0: Instant::now() };
+                let st = PoolState { queue: Mutex::new(VecDeque::from(vec![t])), results: Mutex::new(vec![]), deaths: Mutex::new(vec![]), infra: Mutex::new(vec![]), thorough, times: Mutex::new(BTreeMap::new()), t0: Instant::now(), dead_count: Mutex::new(HashMap::new()), skipped: Mutex::new(BTreeMap::new()), coarse: Mutex::new(Vec::new()) };
                 st.drive(1);
                 for e in st.infra.lock().unwrap().iter() { ctx.machinery_error(e.clone()) }
                 for (_, r) in st.results.lock().unwrap().iter() {
@@ -1785,6 +1836,9 @@ fn main() {
         let mut best: BTreeMap<Kind, usize> = BTreeMap::new();
         for (i, s) in env.seeds.iter().enumerate() {
             let Some(t) = &s.tree else { continue };
+            // only seeds that decode with the first entry point of their type
+            if !matches!(guard(|| run_case(&env, eps_for(s.kind)[0], &s.bytes, false).decoded), Ok(true))
+                && !matches!(guard(|| run_case(&env, *eps_for(s.kind).last().unwrap(), &s.bytes, false).decoded), Ok(true)) { continue }
             let better = match best.get(&s.kind) { None => true, Some(&j) => t.len() < env.seeds[j].tree.as_ref().unwrap().len() };
             if better { best.insert(s.kind, i); }
         }
@@ -1828,7 +1882,7 @@ fn main() {
 
     //--- run
     let ntasks = plan.tasks.len();
-    let st = PoolState { queue: Mutex::new(VecDeque::from(plan.tasks)), results: Mutex::new(Vec::new()), deaths: Mutex::new(Vec::new()), infra: Mutex::new(Vec::new()), thorough, times: Mutex::new(BTreeMap::new()), t0: Instant::now() };
+    let st = PoolState { queue: Mutex::new(VecDeque::from(plan.tasks)), results: Mutex::new(Vec::new()), deaths: Mutex::new(Vec::new()), infra: Mutex::new(Vec::new()), thorough, times: Mutex::new(BTreeMap::new()), t0: Instant::now(), dead_count: Mutex::new(HashMap::new()), skipped: Mutex::new(BTreeMap::new()), coarse: Mutex::new(Vec::new()) };
     eprintln!("c04: planned in {:.1}s", t_start.elapsed().as_secs_f64());
     st.drive(nworkers);
     eprintln!("c04: driven in {:.1}s {:?}", t_start.elapsed().as_secs_f64(), st.times.lock().unwrap());
@@ -1849,14 +1903,21 @@ fn main() {
         "name": s.name, "kind": format!("{:?}", s.kind), "octets": s.bytes.len(), "tlv_nodes": s.tree.as_ref().map(|t| t.len()).unwrap_or(0),
         "bound1_cases": b1_lists[i].len(), "entry_points": eps_for(s.kind).iter().map(|e| format!("{}/{}", e.name(), e.mode())).collect::<Vec<_>>(),
     })).collect();
+    let skipped = std::mem::take(&mut *st.skipped.lock().unwrap());
+    let mut coarse = std::mem::take(&mut *st.coarse.lock().unwrap());
+    coarse.sort_by_key(|d| (d.task.id, d.task.lo));
     let finish_space = |id: SpaceId, name: &str, rule: &str, exhaustive: bool, bound: &str, nt_override: Option<u64>| {
         let sp = ctx.space(name, rule);
+        let sk = skipped.get(&id).copied().unwrap_or(0);
+        let bound_s = if sk > 0 { format!("{bound}, EXCEPT {sk} indexes not run after {DEATH_CAP} inputs of the same seed and entry point had already ended a worker") } else { bound.to_string() };
+        let (exhaustive, bound) = (exhaustive && sk == 0, bound_s.as_str());
         if let Some(r) = per.get(&id) {
             sp.evals(r.evals);
             sp.nontrivial(nt_override.unwrap_or(r.nontrivial));
             for (k, n) in &r.outcomes { sp.outcomes_n(k, *n) }
             for s in r.samples.iter().take(4) { let s = s.clone(); sp.sample_str(|| s) }
             sp.set("max_source_calls_per_octet", json!(r.max_ratio as f64 / 1000.0));
+            sp.set("cases_in_which_a_validation_succeeded", json!(r.marks));
         }
         sp.done(exhaustive, bound);
         sp
@@ -1919,6 +1980,12 @@ fn main() {
     sp0.set("accessor_failure_classes", json!(classes));
     for (o, w, d) in fails { ctx.fail(&o, w, d) }
     for d in &deaths { report_death(&ctx, &env, thorough, d) }
+    for d in &coarse {
+        let (oracle, cause) = if d.hung { ("C04.worker.hang", "hang") } else { ("C04.worker.abort", "abort") };
+        let name = if d.task.sp == SpaceId::Rs { env.rs[d.task.seed].name.clone() } else if d.task.sp == SpaceId::Str { "-".into() } else { env.seeds[d.task.seed].name.clone() };
+        ctx.fail(oracle, format!("mode={};cause={} ep={} seed={} sp={} i={}..{} case=batch-not-bisected acc=decode+sweep", d.task.ep.mode(), cause, d.task.ep.name(), name, d.task.sp.code(), d.task.lo, d.task.hi),
+            format!("{} (more than {DEATH_CAP} inputs of this seed and entry point end a worker; this batch was not bisected)", d.how));
+    }
 
     eprintln!("c04: {} tasks on {} workers, {:.1}s", ntasks, nworkers, t_start.elapsed().as_secs_f64());
     ctx.finish();
